@@ -364,13 +364,15 @@ def main_c14(tier, seed, pid="C14"):
             continue
         stats[which] += 1; stats["queries"] += len(rows)
         stats["batch_sizes"][len(rows)] = stats["batch_sizes"].get(len(rows), 0) + 1
+        qlits = []
         for pos, r in enumerate(rows):
             dq = [it.D[r][tr[j]] for j in range(nt)]
             e = [float(np.exp(-np.float64(v) / const)) for v in dq]
-            terms.append("[run_knn_predict %d %d (-1) %s %s %s %s %s %s]" % (k, nt, flit(1e-20), flit(mn), flit(mx), flist(dq), flist(e), flist(st["cost"])))
-            descs.append(dict(d, query_point=r, batch_position=pos, batch=rows, k=k))
-            expect.append((preds[pos], None if clus is None else clus[pos], st["plabel"], st["clabel"]))
+            qlits.append("(%s, %s)" % (flist(dq), flist(e)))
             rep.count_case((it.key(), which, r, pos), True)
+        terms.append("run_knn_predict_batch %d %d %s %s %s %s [%s]" % (k, nt, flit(1e-20), flit(mn), flit(mx), flist(st["cost"]), "; ".join(qlits)))
+        descs.append(dict(d, batch=rows, k=k))
+        expect.append((preds, clus, st["plabel"], st["clabel"]))
         # oracle 1 (C09): position independence on the implementation
         for pos, r in enumerate(rows):
             alone, calone = knn_predict_rows(opf, it, [r], which)
@@ -392,13 +394,17 @@ def main_c14(tier, seed, pid="C14"):
                 break
 
     def cmp(g, e):
-        nb = g[0]
-        pl, cl, plabels, clabels = e
-        wantp = plabels[nb] if nb >= 0 else 0
-        wantc = clabels[nb] if nb >= 0 else 0
-        return pl == wantp and (cl is None or cl == wantc)
+        preds_, clus_, plabels, clabels = e
+        if len(g) != len(preds_):
+            return False
+        for pos, nb in enumerate(g):
+            wantp = plabels[nb] if nb >= 0 else 0
+            wantc = clabels[nb] if nb >= 0 else 0
+            if preds_[pos] != wantp or (clus_ is not None and clus_[pos] != wantc):
+                return False
+        return True
     bad, _ = corr_generic(rep, "correspondence Model (knn_scan + query_density + knn_pick at PrimFloat) vs KNNSupervisedOPF.predict / UnsupervisedOPF.predict", pid, terms, expect, descs, cmp=cmp)
-    rep.corr["knn_predict"] = dict(cases=len(terms), disagreements=None if bad is None else len(bad), distribution=stats)
+    rep.corr["knn_predict"] = dict(cases=stats["queries"], batches=len(terms), disagreements=None if bad is None else len(bad), distribution=stats)
     rep.extra["oracle_violations"] = nviol
     rep.samples = descs[:2]
     rep.rule = ("fitted KNN-supervised (train/validation split of the labeled points) and unsupervised models on the C12 sample families; batches of 1-10 queries "
